@@ -109,7 +109,7 @@ func WriteFile(name string, data []byte, perm os.FileMode) error {
 }
 
 func (f *File) Name() string { return f.f.Name() }
-func (f *File) Fd() uintptr   { return f.f.Fd() }
+func (f *File) Fd() uintptr  { return f.f.Fd() }
 
 func (f *File) Stat() (os.FileInfo, error) { return f.f.Stat() }
 
@@ -230,3 +230,9 @@ func (f *File) ReadFrom(r io.Reader) (int64, error) {
 		}
 	}
 }
+
+func (f *File) Readdir(n int) ([]os.FileInfo, error) { return f.f.Readdir(n) }
+func (f *File) Readdirnames(n int) ([]string, error) { return f.f.Readdirnames(n) }
+func (f *File) ReadDir(n int) ([]os.DirEntry, error) { return f.f.ReadDir(n) }
+func (f *File) Chmod(mode os.FileMode) error         { return f.f.Chmod(mode) }
+func (f *File) SetDeadline(t time.Time) error        { return f.f.SetDeadline(t) }
